@@ -55,6 +55,8 @@ def gen(tier, rng, scale):
         c = {"items": recs, "layout": [crng.chance(1, 2), crng.chance(1, 2), crng.chance(1, 3), crng.chance(3, 4), crng.choice(["mixed", "mixed", "std"])]}
         if crng.chance(1, 3):
             c["layout"].append(crng.choice([0, 1]))        # two events recorded together; the task records belong to the first or the second
+        elif crng.chance(1, 3):
+            c["layout"] += [None, False, "cycles"]         # `perf record -e cycles -c N`: a hardware event with a fixed period
         if crng.chance(1, 3):
             c["shuffle"] = crng.next()
         if crng.chance(1, 4):
